@@ -782,12 +782,26 @@ Definition live_normal : list op :=
 (* the reference server's CORS middleware runs before rawResponder *)
 Definition live_snapshot : hmap := [(bs "Vary", [bs "Origin"])].
 
+(* what a net/http server can put on the wire at all: 1xx is an interim response (the final status is then 200),
+   status codes outside 100..999 make WriteHeader panic; 204 and 304 carry no body and - over HTTP/1.1, which has
+   no chunked framing then - no trailers, and for 304 net/http removes Content-Type / Content-Length.  For those
+   the property is decidable only when no body bytes, no trailers (and for 304 no such header) are prescribed. *)
+Definition bodyless_body (b : body) : bool :=
+  match b with BNone | BUnary None | BStream [] => true | _ => false end.
+Definition live_observable (r : resp) : bool :=
+  let st := r_status r in
+  ((st =? 0) || ((200 <=? st) && (st <=? 999))) &&
+  (if (st =? 204) || (st =? 304)
+   then bodyless_body (r_body r) && match r_trailers r with [] => true | _ => false end &&
+        ((st =? 204) || forallb (fun h => negb (mem_bytes (canon (h_name h)) [bs "Content-Type"; bs "Content-Length"])) (r_headers r))
+   else true).
+
 (* c17.live: table version rpc (raw?) nreq -> (1) | (0 status (headers) (trailers) #body date) *)
 Definition run_c17_live (args : list sx) : sx :=
   match args with
   | [t; I ver; I k; raw; I _] =>
     match (do t <- un_table t; do k <- (if (ver =? 1)%Z || (ver =? 2)%Z then un_rpc k else None); do raw <- un_opt un_resp raw;
-           if match raw with Some r => body_covered t (r_body r) | None => true end
+           if match raw with Some r => body_covered t (r_body r) && live_observable r | None => true end
            then ret (t, k, raw) else None) with
     | None => sx_bad
     | Some (t, k, raw) =>
